@@ -17,6 +17,7 @@ import BR.Model.HeapOps
 import BR.Model.Arm
 import BR.Model.IK
 import BR.Model.Urdf
+import BR.Model.Dyn
 
 namespace BR.Driver
 
@@ -358,6 +359,41 @@ def parseOp (name : String) (l : List Float) (n : Nat) : Option (Op Float) :=
 
 end ArmIO
 
+namespace DynIO
+open BR.Dyn BR.MR MRIO
+
+def m6 (l : List Float) : Option (M6 Float × List Float) :=
+  if l.length < 36 then none else
+    let g := fun (i j : Nat) => l.getD (6 * i + j) 0
+    let blk := fun (r c : Nat) => (⟨g r c, g r (c+1), g r (c+2), g (r+1) c, g (r+1) (c+1), g (r+1) (c+2),
+                                    g (r+2) c, g (r+2) (c+1), g (r+2) (c+2)⟩ : M3 Float)
+    some (⟨blk 0 0, blk 0 3, blk 3 0, blk 3 3⟩, l.drop 36)
+
+def many {β} (p : List Float → Option (β × List Float)) : Nat → List Float → Option (List β × List Float)
+  | 0, l => some ([], l)
+  | k + 1, l => do
+    let (x, r) ← p l
+    let (xs, r') ← many p k r
+    some (x :: xs, r')
+
+/-- dyn.id n Mlist((n+1)×16) Glist(n×36) Slist(n×6) θ dθ ddθ g(3) F(6) -/
+def handle (fn : String) (a : List Float) : Option (List Float) :=
+  match fn, a with
+  | "dyn.id", nf :: r => do
+    let n := nf.toUInt64.toNat
+    let (Ms, r) ← many t4 (n + 1) r
+    let (Gs, r) ← many m6 n r
+    let (Ss, r) ← many v6 n r
+    let (th, r) ← ArmIO.takeN n r
+    let (dth, r) ← ArmIO.takeN n r
+    let (ddth, r) ← ArmIO.takeN n r
+    let (g, r) ← v3 r
+    let (F, _) ← v6 r
+    some (inverseDynamics Ms Gs Ss th dth ddth g F)
+  | _, _ => none
+
+end DynIO
+
 namespace UrdfIO
 open BR.UrdfModel BR.MR MRIO
 
@@ -487,12 +523,13 @@ def handle (fn : String) (args : List String) : String :=
           toString (obstruction2_gen a b c d e f g h i j k l m n o p q r)
       | _ => "bad-op"
   | _ =>
-    if fn.startsWith "mr." || fn.startsWith "scr." || fn.startsWith "hlp." || fn.startsWith "ik." || fn.startsWith "urdf." then
+    if fn.startsWith "mr." || fn.startsWith "scr." || fn.startsWith "hlp." || fn.startsWith "ik." || fn.startsWith "urdf." || fn.startsWith "dyn." then
       match allSome (args.map parseFloat) with
       | some fl => match (if fn.startsWith "mr." then MRIO.handle fn fl
                           else if fn.startsWith "scr." then ScrIO.handle fn fl
                           else if fn.startsWith "ik." then IKIO.handle fn fl
-                          else if fn.startsWith "urdf." then UrdfIO.handle fn fl else HlpIO.handle fn fl) with
+                          else if fn.startsWith "urdf." then UrdfIO.handle fn fl
+                          else if fn.startsWith "dyn." then DynIO.handle fn fl else HlpIO.handle fn fl) with
         | some out => " ".intercalate (out.map fmtFloat)
         | none => "bad-op"
       | none => "bad-op"
